@@ -717,7 +717,17 @@ class List(list, base.Symbolic, pg_typing.CustomTyping):
   def __add__(self, other: Iterable[Any]) -> 'List':
     """Returns a concatenated List of self and other."""
     concatenated = self.copy()
-    concatenated.extend(other)
+    try:
+      concatenated.extend(other)
+    except BaseException:
+      # NOTE: the copy is discarded when a later value is refused: symbolic
+      # values of `other` that it has adopted (they had no parent, so they were
+      # moved, not copied) are handed back as they were.
+      for v in list.__iter__(concatenated):
+        if isinstance(v, base.Symbolic) and v.sym_parent is concatenated:
+          v.sym_setparent(None)
+          v.sym_setpath(utils.KeyPath())
+      raise
     return concatenated
 
   def __mul__(self, n: int) -> 'List':
